@@ -161,10 +161,11 @@ def pickOwner (cl : List (Nat × Nat)) (bs : List Ballot) (thr : Nat) (n : Nft) 
   | _ => none
 
 /-- the accepted owners of a tally -/
+def acceptedEntry (cl : List (Nat × Nat)) (bs : List Ballot) (thr : Nat) (n : Nft) : Option (Nft × Str) :=
+  (pickOwner cl bs thr n).map (fun o => (n, o))
+
 def acceptedOwners (cl : List (Nat × Nat)) (bs : List Ballot) (thr : Nat) : List (Nft × Str) :=
-  (nftsOf bs).filterMap (fun n => match pickOwner cl bs thr n with
-    | some o => some (n, o)
-    | none => none)
+  (nftsOf bs).filterMap (acceptedEntry cl bs thr)
 
 /-- a validator in the claim map is charged a miss when one of its ballots differs from the accepted value (or none was accepted) -/
 def missed (cl : List (Nat × Nat)) (bs : List Ballot) (accepted : List (Nft × Str)) (i : Nat) : Bool :=
@@ -179,13 +180,17 @@ structure RewardRes where
 /-- per-validator integer reward of one denomination: floor(P * floor(w * 10^18 / W) / 10^18) -/
 def rewardOf (pool w W : Nat) : Nat := pool * (w * one18 / W) / one18
 
+/-- pro-bono rate of validator i (0 when it is not pro bono) -/
+def rateOf (vals : List Val) (i : Nat) : Nat :=
+  match getVal vals i with
+  | some v => v.probono.getD 0
+  | none => 0
+
 def rewardOne (cl : List (Nat × Nat)) (vals : List Val) (W : Nat) (d : Str) (pool : Nat) (acc : RewardRes × Nat) (c : Nat × Nat) : RewardRes × Nat :=
   let r := rewardOf pool c.2 W
   if r = 0 then acc
   else
-    let rate := match getVal vals c.1 with
-      | some v => v.probono.getD 0
-      | none => 0
+    let rate := rateOf vals c.1
     let contribution := r * rate            -- Dec18 numerator of r * rate
     let final := r * one18 - contribution
     let dd : Distr := { outstanding := fun i d' => if i = c.1 ∧ d' = d then acc.1.distr.outstanding i d' + final else acc.1.distr.outstanding i d',
